@@ -271,12 +271,16 @@ def insert(
         assert isinstance(block, gtirb.CodeBlock)
         update_fallthrough_target(cache, cfg, block, text_section.blocks[0])
 
-    if isinstance(end_block, gtirb.CodeBlock) and isinstance(
-        text_section.blocks[-1], gtirb.CodeBlock
+    last_block = text_section.blocks[-1]
+    if (
+        isinstance(end_block, gtirb.CodeBlock)
+        and isinstance(last_block, gtirb.CodeBlock)
+        # An empty last block that nothing in the patch flows into is only
+        # there to hold subsequent code (e.g. after a patch ending in a jump
+        # or return); control never falls out of it.
+        and (last_block.size or any(code.cfg.in_edges(last_block)))
     ):
-        update_fallthrough_target(
-            cache, cfg, text_section.blocks[-1], end_block
-        )
+        update_fallthrough_target(cache, cfg, last_block, end_block)
 
     # Add the patch contents and then we can add everything else from the
     # patch.
